@@ -11,8 +11,14 @@ use serde_json::{json, Value};
 pub struct C07;
 
 /// F-assoc: traits with one associated type, coherent impls by construction (pairwise non-unifiable headers)
+/// index of the associated type `Out` in the trait's declaration
+pub fn out_idx(p: &Program, tr: usize) -> usize {
+    p.traits[tr].assocs.iter().position(|a| a.0 == "Out").unwrap_or(0)
+}
+
 pub fn gen_assoc_program(t: &mut Tape) -> Program {
     let mut p = Program::default();
+    p.assoc_values_reversed = t.chance(40);
     for name in ["A", "B", "C"] {
         p.ctors.push(new_ctor(name, 0));
     }
@@ -25,6 +31,10 @@ pub fn gen_assoc_program(t: &mut Tape) -> Program {
     for name in ["Tr", "Ur"].iter().take(na) {
         let mut tr = new_trait(name, 0, TraitKind::Inductive);
         tr.assocs = vec![("Out".to_string(), if t.chance(25) { vec![0] } else { vec![] })];
+        // a second associated type declared *before* `Out` (40 %): values have to be found by name, not by position
+        if t.chance(40) {
+            tr.assocs.insert(0, ("Aux".to_string(), vec![]));
+        }
         p.traits.push(tr);
     }
     for c in 0..3 {
@@ -73,7 +83,7 @@ pub fn gen_assoc_program(t: &mut Tape) -> Program {
                     if !wcs.iter().any(|wc: &TRef| wc.tr == other) {
                         wcs.push(TRef { tr: other, args: vec![Ty::Param(0)] });
                     }
-                    Ty::Adt(if t.chance(50) { v } else { w }, vec![Ty::Proj(other, 0, vec![Ty::Param(0)])])
+                    Ty::Adt(if t.chance(50) { v } else { w }, vec![Ty::Proj(other, out_idx(&p, other), vec![Ty::Param(0)])])
                 }
                 1 if np > 0 => Ty::Param(0),
                 2 if np > 0 => Ty::Adt(v, vec![Ty::Param(0)]),
@@ -83,12 +93,13 @@ pub fn gen_assoc_program(t: &mut Tape) -> Program {
                     if !wcs.iter().any(|wc: &TRef| wc.tr == other) {
                         wcs.push(TRef { tr: other, args: vec![Ty::Param(0)] });
                     }
-                    Ty::Proj(other, 0, vec![Ty::Param(0)])
+                    Ty::Proj(other, out_idx(&p, other), vec![Ty::Param(0)])
                 }
                 4 => Ty::Adt(w, vec![Ty::Adt(t.choose(3), vec![])]),
                 _ => gen_ty(t, &p, &params, 2),
             };
-            p.impls.push(ImplDef { nparams: np, head: TRef { tr, args: vec![head] }, wcs, positive: true, values: vec![value], upstream: false });
+            let values = if p.traits[tr].assocs.len() == 2 { vec![Ty::Adt(t.choose(3), vec![]), value] } else { vec![value] };
+            p.impls.push(ImplDef { nparams: np, head: TRef { tr, args: vec![head] }, wcs, positive: true, values, upstream: false });
         }
     }
     let _ = params_unused;
@@ -132,7 +143,7 @@ pub fn normalize(p: &Program, ge: &mut GoalEval, tr: usize, self_ty: &Ty, hyps: 
             Tri::Unknown => return Norm::Unknown,
             Tri::True => {}
         }
-        let v = im.values[0].subst_params(&s);
+        let v = im.values[out_idx(p, tr)].subst_params(&s);
         let r = norm_ty(p, ge, &v, hyps, depth - 1);
         if found.is_some() {
             return Norm::Unknown; // not coherent after all: no opinion
@@ -187,19 +198,20 @@ fn gen_assoc_goal(t: &mut Tape, p: &Program) -> (Goal, usize, Ty, u8) {
         }
     }
     let form = t.choose(4) as u8;
-    let proj = Ty::Proj(tr, 0, vec![self_ty.clone()]);
+    let oi = out_idx(p, tr);
+    let proj = Ty::Proj(tr, oi, vec![self_ty.clone()]);
     let goal = match form {
         0 | 1 => {
             prefix.push(Prefix::Exists(vec![base]));
             if form == 0 {
                 Goal { prefix, body: vec![Lit::Normalize(proj, Ty::QVar(base))] }
             } else {
-                Goal { prefix, body: vec![Lit::ProjEq(TRef { tr, args: vec![self_ty.clone()] }, 0, Ty::QVar(base))] }
+                Goal { prefix, body: vec![Lit::ProjEq(TRef { tr, args: vec![self_ty.clone()] }, oi, Ty::QVar(base))] }
             }
         }
         _ => {
             // concrete candidate: filled in by the caller (right or wrong value)
-            Goal { prefix, body: vec![Lit::ProjEq(TRef { tr, args: vec![self_ty.clone()] }, 0, Ty::Adt(0, vec![]))] }
+            Goal { prefix, body: vec![Lit::ProjEq(TRef { tr, args: vec![self_ty.clone()] }, oi, Ty::Adt(0, vec![]))] }
         }
     };
     (goal, tr, self_ty, form)
